@@ -130,6 +130,9 @@ def join_keep(v, extra):
     return v | extra
 
 
+# builder-like sinks: data flows through targets, not through the builder value itself
+OPAQUE = {'CircuitBuilder', 'TimingTree'}
+
 PASS_THROUGH = {'iter', 'iter_mut', 'into_iter', 'copied', 'cloned', 'rev', 'by_ref', 'peekable', 'as_ref', 'as_mut',
                 'clone', 'to_vec', 'as_slice', 'borrow', 'borrow_mut', 'deref', 'to_owned', 'skip', 'take', 'step_by',
                 'par_iter', 'par_iter_mut', 'into_par_iter', 'unwrap', 'expect', 'collect', 'collect_vec', 'chain'}
@@ -137,7 +140,7 @@ ZIPS = {'zip', 'zip_eq'}
 
 
 class Event:
-    __slots__ = ('kind', 'node', 'callee', 'decl', 'recv', 'args', 'val', 'ctx', 'stack', 'fn', 'tried', 'extra', 'pins')
+    __slots__ = ('kind', 'node', 'callee', 'decl', 'recv', 'args', 'val', 'ctx', 'stack', 'fn', 'tried', 'extra', 'pins', 'eq_pins')
 
     def __init__(self, kind, node, fn, ctx, stack, callee=None, decl=None, recv=None, args=None, val=None, tried=False, extra=None):
         self.kind = kind
@@ -153,6 +156,7 @@ class Event:
         self.tried = tried
         self.extra = extra
         self.pins = EMPTY
+        self.eq_pins = EMPTY
 
     @property
     def q(self):
@@ -239,7 +243,7 @@ def walk_noclosure(n):
 
 
 class Flow:
-    def __init__(self, facts, fn, inline=None, depth=3, lits=False, self_val=None, param_vals=None, track_idx=False):
+    def __init__(self, facts, fn, inline=None, depth=3, lits=False, self_val=None, param_vals=None, track_idx=False, tagger=None):
         self.F = facts
         self.root = fn
         self.inline = inline
@@ -247,6 +251,7 @@ class Flow:
         self.lits = lits
         self.events = []
         self.track_idx = track_idx
+        self.tagger = tagger
         self._active = []
         self.ret = self.run_fn(fn, param_vals, (), ())
 
@@ -282,31 +287,53 @@ class Flow:
         finally:
             self.events = saved
 
-    def len_paths(self, fr, n, ctx, stack, strict=False):
+    def len_paths(self, fr, n, ctx, stack, strict=False, want_eq=False):
         """access paths whose len()/is_some()/is_none()/height() occurs in this expression (directly, or through a
-        local bound to such an expression).  strict: only through arithmetic / casts / refs."""
+        local bound to such an expression).  strict: only through arithmetic / casts / refs.
+        want_eq: return (all, eq) where eq = those occurring as an operand of an `==` comparison (or a presence test)."""
         out = set()
-        todo = [n]
+        eqs = set()
+        todo = [(n, False)]
         while todo:
-            x = todo.pop()
+            x, ueq = todo.pop()
             if not isinstance(x, dict):
                 continue
             k = x.get('k')
             if k == 'MCall' and x.get('n') in LEN_METHODS:
                 rv = self.quiet(fr, x['r'], ctx, stack)
+                presence = x.get('n') in ('is_some', 'is_none', 'is_empty')
                 for a in flat(rv):
                     if a.startswith('p:'):
                         out.add(a)
+                        if ueq or presence:
+                            eqs.add(a)
                 continue
             if k == 'Local':
-                out |= fr.lens.get(x['id'], EMPTY)
+                lp = fr.lens.get(x['id'], EMPTY)
+                out |= lp
+                if ueq:
+                    eqs |= lp
                 continue
             if strict and k not in ('Bin', 'Un', 'Cast', 'Ref', 'Block', 'Lit', 'Tup'):
                 continue
             if k == 'Closure':
-                todo.append(x['b'])
+                todo.append((x['b'], ueq))
                 continue
-            todo.extend(kids(x))
+            if k == 'Bin':
+                op = x.get('op')
+                if op == 'Eq':
+                    c = True
+                elif op in ('Lt', 'Le', 'Gt', 'Ge', 'Ne'):
+                    c = False
+                else:
+                    c = ueq
+                todo.append((x['l'], c))
+                todo.append((x['r'], c))
+                continue
+            for c in kids(x):
+                todo.append((c, ueq))
+        if want_eq:
+            return frozenset(out), frozenset(eqs)
         return frozenset(out)
 
     # ------------------------------------------------------------------ patterns
@@ -314,6 +341,10 @@ class Flow:
         k = p.get('k')
         if k == 'Bind':
             pid = p['id']
+            if p.get('t') is not None and ty_adt(fr.fn.types[p['t']]) in OPAQUE:
+                fr.opq.add(pid)
+                fr.env[pid] = EMPTY
+                return
             if weak and pid in fr.env:
                 fr.env[pid] = join(fr.env[pid], v)
             else:
@@ -377,7 +408,7 @@ class Flow:
 
     def weak_update(self, fr, n, v):
         rid = self.root_local(n)
-        if rid is not None:
+        if rid is not None and rid not in fr.opq:
             fr.env[rid] = join(fr.env.get(rid, EMPTY), flat(v))
 
     # ------------------------------------------------------------------ expressions
@@ -486,7 +517,9 @@ class Flow:
     def ev_Assign(self, fr, n, ctx, stack):
         v = self.ev(fr, n['r'], ctx, stack)
         l = n['l']
-        if l.get('k') == 'Local':
+        if l.get('k') == 'Local' and l['id'] in fr.opq:
+            pass
+        elif l.get('k') == 'Local':
             # strong update only outside loops/branches is unsafe to judge; use weak join (may-depend)
             fr.env[l['id']] = join(fr.env.get(l['id'], EMPTY), v)
         else:
@@ -513,7 +546,7 @@ class Flow:
         g_el = el is not None and (diverges_with_err(el) or tail_is_err(el))
         if g_th or g_el:
             ge = Event('guard', n, fr.fn, ctx, stack, val=cf, extra='ensure' if in_macro(n, 'ensure') else 'if')
-            ge.pins = self.len_paths(fr, n['c'], ctx, stack)
+            ge.pins, ge.eq_pins = self.len_paths(fr, n['c'], ctx, stack, want_eq=True)
             self.events.append(ge)
         elif panics(th) or (el is not None and panics(el)):
             mac = macro_of(n) or 'panic'
@@ -545,7 +578,7 @@ class Flow:
                 c1 = c1 + (('if', g, n, a),)
             if not single and diverges_with_err(a['b']) and not any(diverges_with_err(b['b']) for b in n['arms'] if b is not a):
                 ge = Event('guard', n, fr.fn, ctx, stack, val=sf, extra='match')
-                ge.pins = self.len_paths(fr, n['e'], ctx, stack)
+                ge.pins, ge.eq_pins = self.len_paths(fr, n['e'], ctx, stack, want_eq=True)
                 self.events.append(ge)
             r = join(r, self.ev(fr, a['b'], c1, stack))
         return r if r is not None else EMPTY
@@ -748,6 +781,10 @@ class Flow:
                     r1 = self.run_fn(target, pv, ctx, stack + (target.d,))
                     result = r1 if result is None else join(result, r1)
         catom = frozenset(['c:' + qual(c)]) if c else EMPTY
+        if self.tagger is not None:
+            tg = self.tagger(ev, len(self.events) - 1)
+            if tg:
+                catom = catom | frozenset([tg])
         # mutation through &mut receiver / &mut args
         if recv_node is not None:
             rt = fr.fn.ty(recv_node, adjusted=True) or ''
@@ -787,7 +824,7 @@ class Flow:
 
 
 class _Frame:
-    __slots__ = ('fn', 'env', 'clos', 'rets', 'lens')
+    __slots__ = ('fn', 'env', 'clos', 'rets', 'lens', 'opq')
 
     def __init__(self, fn, env, clos):
         self.fn = fn
@@ -795,6 +832,7 @@ class _Frame:
         self.clos = clos
         self.rets = []
         self.lens = {}
+        self.opq = set()
 
 
 # ---------------------------------------------------------------------- query helpers
